@@ -38,6 +38,7 @@ Import ListNotations.
 """
 
 CHECKS = {
+    "pre": "fun c => wf (fst c) && no_overflow (fst c)",      # the generator stays inside the theorem's hypotheses
     "L2cost": "fun c => l2_cost (fst c) (snd c)",
     "L2alleles": "fun c => l2_alleles (fst c) (snd c)",
     "L2witness": "fun c => l2_witness (fst c) (snd c)",
@@ -539,6 +540,8 @@ def check_cases(ctx, insts, label, with_opt=True, count=True):
         raise RuntimeError("coq evaluation failed: " + errors[0][1])
     for lab, lst in f1.items():
         failing[lab] = [idx[i] for i in lst]
+    if failing["pre"]:
+        raise RuntimeError("generator bug: instance outside wf/no_overflow: " + inst_key(insts[failing["pre"][0]]))
     if with_opt:
         sm = [j for j, k in enumerate(idx) if small(insts[k])]
         f2, errors = eval_checks("C01opt", HEADER, CHECK_OPT, [cases[j] for j in sm], shard=max(2, min(12, len(sm) // 16 + 1)), timeout=1500)
@@ -671,7 +674,10 @@ def run(ctx):
                                     [{"inst": insts[k], "impl": {a: b for a, b in results[k].items() if a != 'sr'}} for k in failing[name]])
         if not any(failing[k] for k in ("L1opt", "L1witness", "L1alleles", "shape")):
             def still(d):
-                _, f = check_cases(ctx, [d], "shrink", with_opt=False, count=False)
+                try:
+                    _, f = check_cases(ctx, [d], "shrink", with_opt=False, count=False)
+                except RuntimeError:      # a shrunk candidate left the theorem's hypotheses
+                    return False
                 return bool(f["L2cost"] or f["L2alleles"] or f["L2witness"])
             shrunk = [shrink_instance(insts[k], still) for k in l2[:2]]
             ctx.extra["shrunk_disagreements"] = shrunk
